@@ -216,7 +216,7 @@ def run(ctx):
 
     lib.standard_stream(ctx, gen='c04gen', driver='drv_c04', gen_args=['-seed', str(ctx.seed), '-n', str(n), '-tier', ctx.tier],
                         compare_keys=['err', 'nv', 'walk', 'look'], nontrivial=nontrivial, oracle=oracle, classify=classify,
-                        finding_class=finding_class, sample_every=997)
+                        finding_class=finding_class, sample_every=997, strict_known=True)
     ctx.extra['c10_layer_bytes'] = ('every implementation reply is also checked for: no file item of size >= MaxFileBytes in any walk/lookup, '
                                     'largest regular file below Image.ExtractDir <= MaxFileBytes (field maxdisk)')
     if not proofs_ok:
